@@ -85,6 +85,15 @@ func StartServer(index string, extra ...string) (*Server, error) {
 		}
 		s := &Server{Cmd: cmd, Addr: addr, out: out, done: make(chan struct{})}
 		go func() { s.werr = cmd.Wait(); close(s.done) }()
+		// wait for the listener before creating the client (a refused first
+		// connection attempt would put the gRPC client into a 1 s back-off)
+		for i := 0; i < 400 && s.Alive(); i++ {
+			if nc, derr := net.DialTimeout("tcp", addr, time.Second); derr == nil {
+				nc.Close()
+				break
+			}
+			time.Sleep(10 * time.Millisecond)
+		}
 		conn, err := grpc.NewClient(addr, grpc.WithTransportCredentials(insecure.NewCredentials()),
 			grpc.WithDefaultCallOptions(grpc.MaxCallRecvMsgSize(256<<20), grpc.MaxCallSendMsgSize(256<<20)))
 		if err != nil {
